@@ -400,6 +400,48 @@ func TestExhaustive(t *testing.T) {
 	rec.Sample(Case{Cond: 1, Trig: 3, Ops: []Op{{K: "w", L: 0, Line: []byte("a\n")}, {K: "w", L: 1, Line: []byte("b\n")}, {K: "w", L: 2, Line: []byte("c\n")}, {K: "w", L: 3, Line: []byte("d\n")}}})
 }
 
+// TestLevelSweep: every level value a line can carry (all of int8 but 10) through the held buffer: held
+// first, then a second held line, then released by Trigger(), by a triggering line, and by Close; lines
+// whose first bytes look like what a length/level framing could use.
+func TestLevelSweep(t *testing.T) {
+	var n, nt int64
+	lines := [][]byte{[]byte("l\n"), []byte("\x1bn rest \x1b\x1b\n"), []byte("\n"), append(bytes.Repeat([]byte{0}, 3), 0x1b, 'n', '\n')}
+	for l := -128; l <= 127; l++ {
+		if l == 10 {
+			continue
+		}
+		for _, l2 := range []int{l, -128, 0, 27, 127} {
+			for li, line := range lines {
+				for _, plain := range []bool{false, true} {
+					for _, release := range []string{"trigger", "close", "line"} {
+						c := &Case{Cond: 127, Trig: 127, Plain: plain, Ops: []Op{{K: "w", L: l, Line: append([]byte(fmt.Sprintf("first-%d-", l)), line...)}, {K: "w", L: l2, Line: lines[(li+1)%len(lines)]}}}
+						switch release {
+						case "trigger":
+							c.Ops = append(c.Ops, Op{K: "trigger"})
+						case "close":
+							c.Ops = append(c.Ops, Op{K: "close"})
+						default:
+							if l == 127 || l2 == 127 {
+								continue // would have triggered already
+							}
+							c.Ops = append(c.Ops, Op{K: "w", L: 127, Line: []byte("the trigger\n")})
+						}
+						c.Ops = append(c.Ops, Op{K: "w", L: l, Line: line})
+						msg, _ := run(c)
+						n++
+						nt++
+						if msg != "" {
+							fail(t, "level-sweep", c, msg)
+						}
+					}
+				}
+			}
+		}
+	}
+	rec.Bulk(n, nt, "level-sweep")
+	rec.Exhaustive("every level of int8 except 10 x 5 second levels x 4 line shapes x {LevelWriter, plain} x release by {Trigger(), Close, a triggering line}: held, released, and written once more afterwards")
+}
+
 func genLine(rt *rapid.T) []byte {
 	var b []byte
 	switch rapid.IntRange(0, 9).Draw(rt, "linecls") {
